@@ -340,6 +340,28 @@ func (se *setExec) observe(h []setOp, n int, report func(key, what string)) {
 			}
 		}
 	})
+	// the same set as both operands: a set intersects itself exactly when it has an element, equals itself, and is its own union
+	guard("Intersects", func() {
+		if got, _ := se.call(s, "Intersects", s).(bool); got != (m != 0) {
+			report("Intersects wrong", fmt.Sprintf("s=%s: s.Intersects(s) = %v, the set is %s", name, got, m.str()))
+		}
+	})
+	guard("Equal", func() {
+		if got, _ := se.call(s, "Equal", s).(bool); !got {
+			report("Equal wrong", fmt.Sprintf("s=%s: s.Equal(s) = false", name))
+		}
+	})
+	guard("Union", func() {
+		u := se.call(s, "Union", s)
+		if sh := se.shape(u); sh != "" {
+			report("Union corrupts the list", fmt.Sprintf("s=%s: s.Union(s): %s", name, sh))
+		} else if got, _ := se.call(u, "String").(string); got != m.str() {
+			report("Union wrong", fmt.Sprintf("s=%s: s.Union(s) holds %s, expected %s", name, got, m.str()))
+		}
+		if got, _ := se.call(s, "String").(string); got != m.str() {
+			report("binary operation mutates", fmt.Sprintf("s=%s: after s.Union(s) s holds %s", name, got))
+		}
+	})
 	guard("Len", func() {
 		if got, _ := se.call(s, "Len").(int64); int(got) != m.len() {
 			report("Len wrong", fmt.Sprintf("%s.Len() = %d, the set %s has %d elements", name, got, m.str(), m.len()))
@@ -393,7 +415,7 @@ func (se *setExec) observe(h []setOp, n int, report func(key, what string)) {
 			// usable as a set afterwards: complement twice
 			cc := se.call(cs, "Complement", int64(limit))
 			if got, _ := se.call(cc, "String").(string); got != (m & rangeBits(0, limit)).str() {
-				report("Complement twice wrong", fmt.Sprintf("%s.Complement(%d).Complement(%d) holds %s, expected %s", name, limit, limit, got, (m & rangeBits(0, limit)).str()))
+				report("Complement twice wrong", fmt.Sprintf("%s.Complement(%d).Complement(%d) holds %s, expected %s", name, limit, limit, got, (m&rangeBits(0, limit)).str()))
 				return
 			}
 			if got, _ := se.call(s, "String").(string); got != m.str() {
@@ -427,9 +449,9 @@ func (se *setExec) observe2(h1, h2 []setOp, n int, report func(key, what string)
 		report("Union corrupts the list", fmt.Sprintf("a=%s, b=%s: a.Union(b): %s", n1, n2, sh))
 	}
 	if got, _ := se.call(u, "String").(string); got != (ma | mb).str() {
-		report("Union wrong", fmt.Sprintf("a=%s, b=%s: a.Union(b) holds %s, expected %s", n1, n2, got, (ma | mb).str()))
+		report("Union wrong", fmt.Sprintf("a=%s, b=%s: a.Union(b) holds %s, expected %s", n1, n2, got, (ma|mb).str()))
 	} else if got, _ := se.call(u, "Len").(int64); int(got) != (ma | mb).len() {
-		report("Union Len wrong", fmt.Sprintf("a=%s, b=%s: a.Union(b).Len() = %d, expected %d", n1, n2, got, (ma | mb).len()))
+		report("Union Len wrong", fmt.Sprintf("a=%s, b=%s: a.Union(b).Len() = %d, expected %d", n1, n2, got, (ma|mb).len()))
 	}
 	if got, _ := se.call(a, "Intersects", b).(bool); got != (ma&mb != 0) {
 		report("Intersects wrong", fmt.Sprintf("a=%s, b=%s: a.Intersects(b) = %v, a=%s b=%s", n1, n2, got, ma.str(), mb.str()))
@@ -450,7 +472,7 @@ func (se *setExec) observe2(h1, h2 []setOp, n int, report func(key, what string)
 		}
 		u2 := se.call(a, "Union", cb)
 		if got, _ := se.call(u2, "String").(string); got != (ma | mc).str() {
-			report("Union wrong", fmt.Sprintf("a=%s, c=%s: a.Union(c) holds %s, expected %s", n1, nc, got, (ma | mc).str()))
+			report("Union wrong", fmt.Sprintf("a=%s, c=%s: a.Union(c) holds %s, expected %s", n1, nc, got, (ma|mc).str()))
 		}
 		if got, _ := se.call(a, "Equal", cb).(bool); got != (ma == mc) {
 			report("Equal wrong", fmt.Sprintf("a=%s, c=%s: a.Equal(c) = %v, a=%s c=%s", n1, nc, got, ma.str(), mc.str()))
